@@ -15,11 +15,11 @@ trap cleanup EXIT
 cd $WT
 cargo build --offline -j 8 --bin taskchampion-sync-server >/tmp/confirm/$ID-$K.build0.log 2>&1 || { echo "build failed"; exit 2; }
 cp $CARGO_TARGET_DIR/debug/taskchampion-sync-server /tmp/confirm/bin-head
-bash $demo /tmp/confirm/bin-head >/tmp/confirm/$ID-$K.without.log 2>&1; without=$?
+BIN=/tmp/confirm/bin-head bash $demo /tmp/confirm/bin-head >/tmp/confirm/$ID-$K.without.log 2>&1; without=$?
 git apply $SRC/$K.diff || { echo "$ID $K: patch does not apply"; exit 2; }
 cargo build --offline -j 8 --bin taskchampion-sync-server >/tmp/confirm/$ID-$K.build1.log 2>&1 || { echo "mutant build failed"; exit 2; }
 cp $CARGO_TARGET_DIR/debug/taskchampion-sync-server /tmp/confirm/bin-mut
-bash $demo /tmp/confirm/bin-mut >/tmp/confirm/$ID-$K.with.log 2>&1; with=$?
+BIN=/tmp/confirm/bin-mut bash $demo /tmp/confirm/bin-mut >/tmp/confirm/$ID-$K.with.log 2>&1; with=$?
 cargo test --workspace --offline -j 8 >/tmp/confirm/$ID-$K.suite.log 2>&1; suite=$?
 npass=$(grep -E "^test result: ok" /tmp/confirm/$ID-$K.suite.log | sed -E 's/.* ([0-9]+) passed.*/\1/' | paste -sd+ | bc)
 echo "$ID $K: demo without=$without with=$with suite=$suite passed=$npass"
